@@ -12,6 +12,17 @@
 
 using namespace vf;
 
+// wall-clock independence: in the "clock" environments every way a program can ask for the time of day or a
+// monotonic clock answers with a skewed value (the engine binary defines the libc entry points itself)
+#include <sys/syscall.h>
+#include <sys/time.h>
+extern "C" {
+static long vf_clock_skew() { static long s = [] { const char* e = ::getenv("VF_CLOCK_SKEW"); return e ? ::atol(e) : 0L; }(); return s; }
+int clock_gettime(clockid_t id, struct timespec* ts) noexcept { long r = ::syscall(SYS_clock_gettime, id, ts); if (r == 0 && ts) ts->tv_sec += vf_clock_skew(); return int(r); }
+int gettimeofday(struct timeval* tv, void* tz) noexcept { long r = ::syscall(SYS_gettimeofday, tv, tz); if (r == 0 && tv) tv->tv_sec += vf_clock_skew(); return int(r); }
+time_t time(time_t* t) noexcept { struct timespec ts; ::syscall(SYS_clock_gettime, CLOCK_REALTIME, &ts); time_t v = ts.tv_sec + vf_clock_skew(); if (t) *t = v; return v; }
+}
+
 namespace {
 
 struct prog_abort { int x; };
@@ -152,14 +163,15 @@ std::string emit(int p, std::string const& envname, std::string const& scratch)
 	return t;
 }
 
-struct EnvSpec { const char* name; const char* asan; bool no_aslr; };
+struct EnvSpec { const char* name; const char* asan; bool no_aslr; const char* skew = ""; };
 std::vector<EnvSpec> envs(bool thorough)
 {
 	std::vector<EnvSpec> e = {
 		{ "baseline", "", false }, { "fill00", "malloc_fill_byte=0:max_malloc_fill_size=1048576", false }, { "fill5a", "malloc_fill_byte=90:max_malloc_fill_size=1048576", false },
 		{ "filla5", "malloc_fill_byte=165:max_malloc_fill_size=1048576", false }, { "fillff", "malloc_fill_byte=255:max_malloc_fill_size=1048576", false },
 		{ "heapA", "", false }, { "heapB", "", false }, { "arenarev", "", false }, { "stack00", "", false }, { "stackff", "", false }, { "noaslr", "", true },
-		{ "twice", "", false }, { "pred63", "", false }, { "pred1000", "", false }, { "pred1001", "", false } };
+		{ "twice", "", false }, { "pred63", "", false }, { "pred1000", "", false }, { "pred1001", "", false },
+		{ "clock+11y", "", false, "350000000" }, { "clock-1d", "", false, "-86400" } };
 	if (thorough) for (const char* n : { "pred1", "pred6", "pred8", "pred16", "pred36", "pred27" }) e.push_back(EnvSpec{ n, "", false });
 	if (thorough) { e.push_back(EnvSpec{ "fill00+heapB", "malloc_fill_byte=0:max_malloc_fill_size=1048576", false }); e.push_back(EnvSpec{ "noaslr+fillff", "malloc_fill_byte=255:max_malloc_fill_size=1048576", true }); }
 	return e;
@@ -171,7 +183,7 @@ std::string spawn(std::string const& exe, int p, EnvSpec const& e, std::string c
 	std::string inproc = envname; if (plus != std::string::npos) { std::string a = envname.substr(0, plus), b = envname.substr(plus + 1); inproc = (a.compare(0, 4, "fill") == 0 || a == "noaslr") ? b : a; if (inproc.compare(0, 4, "fill") == 0 || inproc == "noaslr") inproc = "baseline"; }
 	const char* base = ::getenv("ASAN_OPTIONS");
 	std::string asan = std::string(base ? base : "detect_leaks=0") + (e.asan[0] ? std::string(":") + e.asan : "");
-	std::string cmd = "ASAN_OPTIONS='" + asan + "' " + (e.no_aslr ? "setarch x86_64 -R " : "") + exe + " --property C01 --replay 'p=" + std::to_string(p) + ";env=" + inproc + ";emit=1' --scratch '" + scratch + "' 2>&1";
+	std::string cmd = std::string(e.skew[0] ? std::string("VF_CLOCK_SKEW=") + e.skew + " " : std::string()) + "ASAN_OPTIONS='" + asan + "' " + (e.no_aslr ? "setarch x86_64 -R " : "") + exe + " --property C01 --replay 'p=" + std::to_string(p) + ";env=" + inproc + ";emit=1' --scratch '" + scratch + "' 2>&1";
 	FILE* f = ::popen(cmd.c_str(), "r"); ok = false; if (!f) return "popen failed";
 	std::string out; char buf[65536]; size_t n; while ((n = std::fread(buf, 1, sizeof buf, f)) > 0) out.append(buf, n);
 	int st = ::pclose(f); ok = (st == 0);
